@@ -113,6 +113,44 @@ def check(ctx: Ctx) -> str:
                               f"{m.rel}:{node.lineno}", detail={"function": astq.qualname(fn), "parameter": p, "test": t_})
     ctx.floor("None-defaulted parameters", n5, 4)
 
+    ctx.rule("R6", "urlencode: url_quote percent-encodes the unmodified bytes with safe = b'' for query strings (b'/' otherwise) and only afterwards rewrites %20 to + for query strings - a literal '+' or '&' in the data is always encoded; do_urlencode quotes keys and values with for_qs=True")
+    uq = repo.func("utils:url_quote")
+    qs = [c for c in astq.calls(uq.node) if astq.callee(c) in ("quote_from_bytes", "quote", "urllib.parse.quote_from_bytes")]
+    ctx.floor("quoting calls in url_quote", len(qs), 1)
+
+    def _resolve(e: ast.AST) -> ast.AST:
+        if isinstance(e, ast.Name):
+            src = [a for a in ast.walk(uq.node) if isinstance(a, ast.Assign) and len(a.targets) == 1 and isinstance(a.targets[0], ast.Name) and a.targets[0].id == e.id]
+            if len(src) == 1:
+                return src[0].value
+        return e
+
+    for c in qs:
+        data = c.args[0] if c.args else None
+        safe = _resolve(c.args[1]) if len(c.args) > 1 else next((_resolve(k.value) for k in c.keywords if k.arg == "safe"), None)
+        ctx.check(isinstance(data, ast.Name) and data.id == "obj", f"url_quote:data:{ast.unparse(c)[:40]}", "utils:url_quote", f"quotes `{ast.unparse(data) if data is not None else '?'}`",
+                  f"url_quote must percent-encode the bytes as they are; `{ast.unparse(data) if data is not None else '?'}` rewrites the data before quoting (a literal '+' then survives as '+', which decodes to a space)", uq.loc(c))
+        safes: set[bytes] = set()
+        oks = True
+        if isinstance(safe, ast.IfExp):
+            parts = [(safe.body, True), (safe.orelse, False)]
+            oks = ast.unparse(safe.test) == "for_qs" and all(isinstance(p_, ast.Constant) and isinstance(p_.value, bytes) for p_, _ in parts)
+            if oks:
+                oks = safe.body.value == b"" and safe.orelse.value == b"/"  # type: ignore[attr-defined]
+        elif isinstance(safe, ast.Constant) and isinstance(safe.value, bytes):
+            gts = astq.guard_texts(uq.node, c)
+            in_qs = any(g == "for_qs" and pol for g, pol in gts)
+            oks = safe.value == (b"" if in_qs else b"/") and (in_qs or any(g == "for_qs" and not pol for g, pol in gts) or safe.value == b"")
+        else:
+            oks = False
+        ctx.check(oks, f"url_quote:safe:{ast.unparse(c)[:40]}", "utils:url_quote", f"safe characters `{ast.unparse(safe) if safe is not None else '?'}`",
+                  f"the safe set of the quoting call is `{ast.unparse(safe) if safe is not None else '?'}`: for query strings nothing may be left unquoted (b''), for paths only '/'; anything else lets reserved characters of the data through ('+' decodes to a space, '&' splits the pair)", uq.loc(c))
+    reps = [c for c in astq.calls(uq.node) if astq.attr_tail(c) == "replace"]
+    okr = len(reps) == 1 and [ast.unparse(a) for a in reps[0].args] == ["'%20'", "'+'"] and any(g == "for_qs" and pol for g, pol in astq.guard_texts(uq.node, reps[0])) and ast.unparse(reps[0].func.value) != "obj"  # type: ignore[attr-defined]
+    ctx.check(okr, "url_quote:plus", "utils:url_quote", "spaces become + after quoting", f"the only rewrite allowed is %20 -> + on the quoted result under for_qs; found {[ast.unparse(r) for r in reps]}", uq.loc())
+    du = repo.func("filters:do_urlencode")
+    ctx.check("url_quote(k, for_qs=True)" in ast.unparse(du.node) and "url_quote(v, for_qs=True)" in ast.unparse(du.node) and "'&'.join(" in ast.unparse(du.node), "urlencode:pairs", "filters:do_urlencode", "pairs quoted for a query string", "keys and values of a mapping must be quoted with for_qs=True and joined with '&'", du.loc())
+
     ctx.rule("R3", "truncate: the unchanged-return test is len(s) <= length + leeway (as a linear inequality), every cut of s ends at length - len(end), every truncating return appends end")
     tr = repo.func("filters:do_truncate")
     tests = [astq.linear_cmp(n_) for n_ in ast.walk(tr.node) if isinstance(n_, ast.Compare) and "len(s)" in ast.unparse(n_)]
